@@ -52,8 +52,8 @@ structure NumOps (V : Type) where
 /- the value the jx decoder walks. `bad` is the point where decoding fails; nothing after it is visited. -/
 mutual
 inductive JVal
-  | obj (kvs : JKvs)
-  | arr (xs : JList)
+  | obj (text : Bytes) (kvs : JKvs)      -- `text`: the source text of the value (what `Decoder.Raw` returns for it)
+  | arr (text : Bytes) (xs : JList)
   | str (s : Bytes)
   | raw (text : Bytes)      -- number, true, false, null: kept as source text
   | bad
@@ -69,6 +69,7 @@ structure Env (V : Type) where
   o : Oracles
   num : NumOps V
   jsonDecode : Bytes → JVal
+  jsonValid : Bytes → Bool                 -- jx.Valid: the line as a whole is one JSON document
   logfmtDecode : Bytes → List (Bytes × Bytes)
   tpl : Bytes → Labels → Option Bytes     -- template text, data (labels + `_entry`) ↦ output; none = Execute failed
   hash : Bytes → UInt64                    -- city.CH64
@@ -187,8 +188,8 @@ def joinPrefix (pfx key : Bytes) : Bytes := if pfx.isEmpty then key else pfx ++ 
 /- `Skip()` fails iff the skipped value contains the failure point -/
 mutual
 def hasBad : JVal → Bool
-  | .obj kvs => hasBadKvs kvs
-  | .arr xs => hasBadList xs
+  | .obj _ kvs => hasBadKvs kvs
+  | .arr _ xs => hasBadList xs
   | .bad => true
   | _ => false
 def hasBadKvs : JKvs → Bool
@@ -202,9 +203,9 @@ end
 /- `subDec`: labels so far and whether decoding is still going -/
 mutual
 def subDecVal (pfx : Bytes) (acc : Labels × Bool) : JVal → Labels × Bool
-  | .obj kvs => subDecKvs pfx acc kvs
+  | .obj _ kvs => subDecKvs pfx acc kvs
   | .str s => (acc.1.set (sanitizeLabel pfx) s, true)
-  | .arr xs => (acc.1, !hasBadList xs)   -- d.Skip()
+  | .arr _ xs => (acc.1, !hasBadList xs)   -- d.Skip()
   | .raw t => (acc.1.set (sanitizeLabel pfx) t, true)
   | .bad => (acc.1, false)
 def subDecKvs (pfx : Bytes) (acc : Labels × Bool) : JKvs → Labels × Bool
@@ -217,7 +218,7 @@ end
 /-- `ParserPlanner.json`: only an object is looked into -/
 def jsonAll (doc : JVal) (l : Labels) : Labels :=
   match doc with
-  | .obj kvs => (subDecKvs [] (l, true) kvs).1
+  | .obj _ kvs => (subDecKvs [] (l, true) kvs).1
   | _ => l
 
 /-- one step of a JSON path parameter: a key or an array index -/
@@ -237,11 +238,26 @@ def aheadsFor (seg : PathSeg) (as : List Ahead) : List Ahead :=
 def setAll (l : Labels) (as : List Ahead) (v : Bytes) : Labels :=
   as.foldl (fun acc a => if a.2.isEmpty then acc.set a.1 v else acc) l
 
-/- `jsonPathProcessor.process / processObject / processArray` -/
+/-- the aheads whose path goes on (`deeper` in `process`) -/
+def deeperOf (as : List Ahead) : List Ahead := as.filter (fun a => !a.2.isEmpty)
+
+/- `jsonPathProcessor.process / processObject / processArray`. An object or an array some path *ends* at is read
+   as a whole (`dec.Raw()`, fails iff the value contains the failure point), its text goes to the aheads whose path is
+   exhausted, and the aheads that go on are followed inside that text. -/
 mutual
 def jppVal (as : List Ahead) (acc : Labels × Bool) : JVal → Labels × Bool
-  | .obj kvs => if as.isEmpty then (acc.1, !hasBadKvs kvs) else jppKvs as acc kvs
-  | .arr xs => if as.isEmpty then (acc.1, !hasBadList xs) else jppArr as 0 acc xs
+  | .obj text kvs =>
+    if (deeperOf as).length < as.length then
+      if hasBadKvs kvs then (acc.1, false)
+      else if (deeperOf as).isEmpty then (setAll acc.1 as text, true)
+      else jppKvs (deeperOf as) (setAll acc.1 as text, true) kvs
+    else if as.isEmpty then (acc.1, !hasBadKvs kvs) else jppKvs as acc kvs
+  | .arr text xs =>
+    if (deeperOf as).length < as.length then
+      if hasBadList xs then (acc.1, false)
+      else if (deeperOf as).isEmpty then (setAll acc.1 as text, true)
+      else jppArr (deeperOf as) 0 (setAll acc.1 as text, true) xs
+    else if as.isEmpty then (acc.1, !hasBadList xs) else jppArr as 0 acc xs
   | .str s => (setAll acc.1 as s, true)
   | .raw t => (setAll acc.1 as t, true)
   | .bad => (acc.1, false)
@@ -257,7 +273,17 @@ def jppArr (as : List Ahead) (i : Nat) (acc : Labels × Bool) : JList → Labels
     if r.2 then jppArr as (i + 1) r rest else r
 end
 
-def jsonParams (params : List Ahead) (doc : JVal) (l : Labels) : Labels := (jppVal params (l, true) doc).1
+/-- what the walk found: label ↦ value, on a map of its own (`found`); nothing when the line is not one JSON
+    document (`jx.Valid`) or the walk fails -/
+def jsonFound (valid : Bool) (params : List Ahead) (doc : JVal) : Labels :=
+  if valid then
+    let r := jppVal params ([], true) doc
+    if r.2 then r.1 else []
+  else []
+
+/-- `ParserPlanner.jsonWithParams`: every named label is set — to what the walk found for it, else to "" -/
+def jsonParams (valid : Bool) (params : List Ahead) (doc : JVal) (l : Labels) : Labels :=
+  params.foldl (fun acc a => acc.set a.1 ((jsonFound valid params doc).get a.1)) l
 
 /-- `logFmtParser.HandleLogfmt` over the pairs kr/logfmt reports; `fields` = first path segment ↦ label when
     the stage has parameters -/
@@ -303,7 +329,7 @@ def planParser (op : ParserOp) (params : List Ahead) : Option ParserKind :=
 def parseLabels {V} (E : Env V) (k : ParserKind) (msg : Bytes) (l : Labels) : Labels :=
   match k with
   | .json => jsonAll (E.jsonDecode msg) l
-  | .jsonParams ps => jsonParams ps (E.jsonDecode msg) l
+  | .jsonParams ps => jsonParams (E.jsonValid msg) ps (E.jsonDecode msg) l
   | .logfmt => logfmtAll (E.logfmtDecode msg) l
   | .logfmtParams ps => logfmtFields (paramFields ps) (E.logfmtDecode msg) l
 
@@ -441,6 +467,14 @@ def unwrapAggFn {V} (N : NumOps V) (durNs : Int) : UnwrapFn → AggFn V
   | .lastOverTime => ⟨fun _ e => (e.val, 1), fun c => c.1⟩
   | .other => ⟨fun c _ => c, fun c => c.1⟩
 
+/-- `first_over_time` / `last_over_time` read `ctx.OrderASC`: the entries arrive ordered by timestamp in the direction of
+    the request, so when it is descending the earliest entry of a bucket is the one that arrives last — the first
+    function then overwrites on every entry (the step of `lastOverTime`), the last one keeps the first arrival -/
+def dirFn (asc : Bool) : UnwrapFn → UnwrapFn
+  | .firstOverTime => if asc then .firstOverTime else .lastOverTime
+  | .lastOverTime => if asc then .lastOverTime else .firstOverTime
+  | fn => fn
+
 def vecFn {V} (N : NumOps V) : VecFn → AggFn V
   | .sum => ⟨fun c e => (N.add c.1 e.val, 1), fun c => c.1⟩
   | .min => ⟨fun c e => if N.lt e.val c.1 || c.2 == 0 then (e.val, 1) else c, fun c => c.1⟩
@@ -530,6 +564,7 @@ structure Ctx where
   limit : Int
   flushAt : Nat            -- 3000 in planner_fingerprint_optimizer.go
   maxSeries : Nat          -- 2000 in planner_generic_aggregator.go
+  orderAsc : Bool          -- `ctx.OrderASC` (direction=forward): the order in which the ClickHouse part sorts its rows
 
 abbrev Batches (V : Type) := List (List (Entry V))
 
@@ -556,7 +591,16 @@ def runCmp {V} (E : Env V) (c : Option (CmpOp × V)) (bs : Batches V) : Batches 
   | some (op, v) => run E.num (accOps (comparisonFn E.num op v)) [] bs
   | none => bs
 
-/-- `Plan` + `planAggregators` followed by `Process` on the upstream batches -/
+/-- `LRAPlanner.Process` / `UnwrapAggPlanner.Process` admit exactly the function names `addValue` has a case for; any
+    other name (`stddev_over_time`, `stdvar_over_time`, `sum_over_time` without `| unwrap`, …) is answered NotSupported
+    before anything runs (it used to leave every bucket empty: an empty matrix) -/
+def Plan.accepted {V} (p : Plan V) : Bool :=
+  match p.agg with
+  | some (.range .other, _) => false
+  | some (.unwrap .other, _) => false
+  | _ => true
+
+/-- `Plan` + `planAggregators` followed by `Process` on the upstream batches (of a plan `Process` accepts) -/
 def runPlan {V} (E : Env V) (c : Ctx) (p : Plan V) (bs : Batches V) : Batches V :=
   let s := runStages E p.stages bs
   match p.agg with
@@ -566,7 +610,7 @@ def runPlan {V} (E : Env V) (c : Ctx) (p : Plan V) (bs : Batches V) : Batches V 
     let g := Grid.of c.fromNs c.toNs dur
     let a := match k with
       | .range fn => run E.num (aggOps E.num c.maxSeries g (lraFn E.num dur fn)) [] s
-      | .unwrap fn => run E.num (aggOps E.num c.maxSeries g (unwrapAggFn E.num dur fn)) [] (runByWithout E p.aggBy s)
+      | .unwrap fn => run E.num (aggOps E.num c.maxSeries g (unwrapAggFn E.num dur (dirFn c.orderAsc fn))) [] (runByWithout E p.aggBy s)
     let a := runCmp E p.aggCmp a
     match p.vec with
     | none => a
